@@ -362,7 +362,7 @@ EnvNext ==
     \/ Restart
 \* Generator bias (no effect when MaxPend is large): once MaxPend deliveries are outstanding the environment waits
 \* (ph = "drain") until none is, unless all that is left are pods waiting for a node the cache does not know.
-Blocked(o) == o[1] = "Pod" /\ ReconcileEffect(o[1], o[2])[2]
+Blocked(o) == (o[1] = "Pod" /\ ReconcileEffect(o[1], o[2])[2]) \/ (o[1] = "ClaimGC" /\ seed[o[2]] # "-")
 EnvOK == ph = "env" \/ \A o \in pend : Blocked(o)
 DeliverNext == \E o \in Objs : Deliver(o[1], o[2]) \/ (ph = "env" /\ Redeliver(o[1], o[2]))
 Next == /\ Len(h) < MaxLen /\ ((EnvOK /\ EnvNext) \/ DeliverNext)
